@@ -924,6 +924,11 @@ def order_independence(spec, st, obs, rs, rng):
             return [], 1
         return [viol("C19", "outcome-depends-on-order", f"{st} {obs if st == 'err' else ''} vs {st2} {obs2 if st2 == 'err' else ''}")], 1
     if st == "err":
+        # both builds are refused. When two objects of the model fail independently (a storage hit by the float residue of
+        # finding D4, a server hit by D15 — C04's findings), which refusal comes first follows the order in which independent
+        # objects are computed: there is no result whose value could depend on the order — inconclusive
+        if obs != obs2 and ({obs, obs2} & {"neg-storage", "shape"}):
+            return [], 1
         return ([] if obs == obs2 else [viol("C19", "error-depends-on-order", f"{obs} vs {obs2}")]), 1
     sens = ceil_sensitive(spec, obs) | ceil_sensitive(sp2, obs2)
     if sens:
